@@ -268,6 +268,14 @@ Example C09_ex_held_points_are_used :
   @decorated_oversampled ROps fst [[false]] [2%nat] [(5 + 1/4, -1/4); (5 + 1/4, 1/4); (5 - 1/4, -1/4); (5 - 1/4, 1/4)] = [5]
   /\ @array_via_func ROps fst [[false]] (1, 1) (0, 0) [2%nat] = [0].
 Proof. exact held_points_are_used. Qed.
+(* ONE over sampler, any history without edits of the map: the k-th step, if it is a decorated call with a Grid2DOverSampled
+   holding [held], returns the per-pixel means of f over [held], whatever was read, cached or held before *)
+Theorem C09_sampler_history_held_step : forall m (ps og : R * R) ss (ops : list (@sop ROps)) k held f,
+  shape_okP m ss ->
+  forallb (fun op => match op with SEdit _ _ => false | _ => true end) ops = true ->
+  nth_error ops k = Some (@SHeld ROps held f) -> length held = list_sum (map (fun s => (s * s)%nat) ss) ->
+  nth_error (@srun ROps (@sampler_new ROps m ps og ss) ops) k = Some (@RNums ROps (@spec_held ROps f ss held)).
+Proof. exact sampler_history_held_step. Qed.
 Example C09_ex_perform_map : perform_over_sampling ex_mask (@OSUniformMap ROps [2; 1; 3; 8]%nat) = true.
 Proof. reflexivity. Qed.
 
@@ -317,3 +325,4 @@ Print Assumptions C09_decorator_oversampled_on_own_grid.
 Print Assumptions C09_decorator_uniform_map_any_values.
 Print Assumptions C09_decorator_uniform_int_any_values.
 Print Assumptions C09_ex_held_points_are_used.
+Print Assumptions C09_sampler_history_held_step.
